@@ -37,6 +37,7 @@ def run(ctx, progs):
                     "public entries return balanced; one state per loop head")
     ctx.rule("GUARD1", "Guard dominates every clone; forget after the loop only; Guard::drop destroys dst[..initialized]")
     ctx.rule("RO1", "observer impls take &self, contain no unsafe, have no WRITES effect")
+    ctx.rule("SHRINK1", "a store that may shrink size is followed by drop_range on every path (no user code in between) or the function returns a Drain")
     ctx.rule("LEAK1", "mem::forget / ManuallyDrop::new sites == reviewed table")
     for cfg, prog in progs.items():
         run_occ(ctx, prog, cfg, "OCC")
@@ -44,6 +45,11 @@ def run(ctx, progs):
         ro1(ctx, prog, cfg)
         leak1(ctx, prog, cfg)
         user_site_floor(ctx, prog, cfg)
+        # elements taken out of the buffer's custody by a shrinking store are handed to drop_range / a Drain before any
+        # user code can run (otherwise a panic in that code leaks them)
+        from . import c05
+
+        c05.shrink1(ctx, prog, cfg)
 
 
 def occ_scope(prog):
